@@ -126,8 +126,27 @@ func CheckOffline(in OfflineInput, sit func(prop, s string)) []Finding {
 		if j.Completed && !j.Canceled && !j.HasError && in.Deps[j.ID] != nil {
 			sit("C02", fmt.Sprintf("plain success with %d tasks", len(j.Tasks)))
 			for _, t := range j.Tasks {
-				if n := len(perTask[[2]string{j.ID, t.Name}]); n != 1 {
+				l := perTask[[2]string{j.ID, t.Name}]
+				if n := len(l); n != 1 {
 					add([]string{"C02", "C08"}, "C02:plain-success-but-task-not-executed-exactly-once", "%s is reported completed successfully but its task %s entered the runner %d times", name(j.ID), t.Name, n)
+					continue
+				}
+				// verdict soundness: every task ran to success or failed while marked allow_failure
+				sit("C08", "plain success task result "+l[0].res)
+				okRes := l[0].res == "ok" || l[0].res == "exit-fail-allowed" || (l[0].res == "err-fail" && in.Allow[j.ID][t.Name])
+				if l[0].open || !okRes {
+					add([]string{"C08"}, "C08:plain-success-although-not-all-tasks-succeeded", "%s is reported completed, not canceled, without error, but its task %s ended %q in the runner", name(j.ID), t.Name, l[0].res)
+				}
+			}
+		}
+	}
+
+	for i := range in.Final.Jobs {
+		j := &in.Final.Jobs[i]
+		if j.Completed {
+			for _, t := range j.Tasks {
+				if t.Status == "running" {
+					add([]string{"C08"}, "C08:task-running-in-completed-job", "%s is reported completed but its task %s is reported running", name(j.ID), t.Name)
 				}
 			}
 		}
